@@ -352,6 +352,64 @@ def run_sampling(case):
     return {"nontrivial": (imperfect or rejecting) and N >= 2000, "labels": sorted(labels)}
 
 
+# ------------------------------------------------------------ reproducibility across interpreter runs
+def seeded_eval(case):
+    """The seeded sampling call of `case`, as canonical JSON. Evaluated here and in a second interpreter that salts
+    hash() differently (vlib.peer): "a fixed seed reproduces the same result" is a statement about re-running a
+    program, and every run is a new interpreter."""
+    import lightworks as lw
+    from lightworks import emulator
+    c = build_real(case["prog"])
+    det = case["det"]
+    in_state = lw.State(list(case["input"]))
+    real_ps = postsel.to_real(case["ps"])
+    seed, N, method = case["seed"], case["N"], case["method"]
+    if method in ("N_inputs", "N_outputs"):
+        d = emulator.Detector(efficiency=det["eff"], p_dark=det["dark"], photon_counting=det["pc"])
+        smp = emulator.Sampler(c, in_state, detector=d)
+        res = getattr(smp, "sample_" + method)(N, post_select=real_ps, min_detection=case["min_det"], seed=seed)
+    else:
+        qs = emulator.QuickSampler(c, in_state, photon_counting=det["pc"], post_select=real_ps)
+        res = qs.sample_N_outputs(N, seed=seed)
+    return sorted([[int(x) for x in k], int(v)] for k, v in res.items())
+
+
+@st.composite
+def peer_case(draw):
+    case = draw(sampling_case(method=draw(st.sampled_from(["N_inputs", "N_inputs", "N_outputs", "qs_N_outputs"]))))
+    case["N"] = draw(st.sampled_from([50, 300]))
+    case["seed_type"] = "int"
+    if case["method"] == "N_inputs" and case["det"]["eff"] == 1 and case["det"]["dark"] == 0:
+        case["det"]["eff"], case["det"]["dark"] = draw(st.sampled_from([[0.7, 0], [1, 0.1], [0.6, 0.2]]))
+    return case
+
+
+def run_peer(case):
+    from vlib import peer
+    from vlib.harness import from_lightworks
+    try:
+        here = ("ok", seeded_eval(case))
+    except Exception as e:  # noqa: BLE001
+        if not from_lightworks(e):
+            raise
+        here = ("raised", f"{type(e).__name__}: {e}")
+    there = peer.ask("checks.c07", "seeded_eval", case)
+    labels = [case["method"], "both-" + here[0]]
+    if here[0] != there[0]:
+        raise Violation(f"{case['method']}(N={case['N']}, seed={case['seed']}): this interpreter {here[0]} "
+                        f"({str(here[1])[:120]}), a second interpreter {there[0]} ({str(there[1])[:120]})",
+                        key="seed-not-reproducible-across-processes")
+    if here[0] == "ok" and here[1] != there[1]:
+        raise Violation(f"{case['method']}(N={case['N']}, seed={case['seed']}) gives {str(here[1])[:150]} in this "
+                        f"interpreter and {str(there[1])[:150]} in a second interpreter (PYTHONHASHSEED "
+                        f"{peer.PEER_HASHSEED}) - a fixed seed does not reproduce the result",
+                        key="seed-not-reproducible-across-processes")
+    det = case["det"]
+    if det["eff"] < 1 or det["dark"] > 0:
+        labels.append("imperfect-detector")
+    return {"nontrivial": here[0] == "ok" and len(here[1]) >= 2, "labels": labels}
+
+
 def subs(tier):
     q = tier == "quick"
     return [
@@ -363,6 +421,7 @@ def subs(tier):
             examples=12 if q else 300),
         Sub("QuickSampler.sample", run_sampling, strategy=sampling_case(method="qs_sample"),
             examples=12 if q else 300),
+        Sub("seed-across-interpreters", run_peer, strategy=peer_case(), examples=5 if q else 400),
         Sub("QuickSampler.sample_N_outputs", run_sampling, strategy=sampling_case(method="qs_N_outputs"),
             examples=15 if q else 400),
     ]
